@@ -129,7 +129,12 @@ def _check_length(args):
                      "got_length": ln}, "length"))
     for i, _item in enumerate(it):
         item = rd["x"]
-        got = {name: getattr(item, name) for name in VARS}
+        got = {}
+        for name in VARS:
+            try:
+                got[name] = getattr(item, name)
+            except Exception as e:  # noqa: BLE001 - outcome under test
+                got[name] = "RAISES " + type(e).__name__
         n += 1
         wrong, k2, exp = diff_vars(got, i, length)
         if wrong:
